@@ -165,6 +165,7 @@ def fsym_term(text):
     it.run("s")
     fsym_term.exact = [tmod(x, y) == 0 for x, y in it.int_divs]
     fsym_term.nonzero = [y != 0 for x, y in it.int_divs]
+    fsym_term.modpos = [z3.And(x >= 0, y > 0) for x, y in it.int_mods]
     return it.store["in_r"]
 
 
@@ -199,7 +200,7 @@ def work(batch):
             if r == "sat":
                 env, arr = model_env(m, extra_vars=(["d"] if unit.endswith("distance") else []))
                 ok, detail = check(env, arr)
-                o["status"] = "sat_replayed" if ok else "sat_not_reproduced"
+                o["status"] = "sat_replayed" if ok else ("sat_unreplayable" if ok is None else "sat_not_reproduced")
                 o["witness"] = {"env": env, "detail": detail}
                 # classification: does the counterexample need a division with a remainder?
                 exact = list(ev.exact) + list((extra or {}).get("_exact", []))
@@ -289,11 +290,13 @@ def work(batch):
             def chk_expand(env, arr, newtxt=newtxt):
                 a = pyeval(p["e2"], env, arr)
                 b = eval_text(newtxt, env, arr)
+                if a is None or b is None:
+                    return None, f"e={a} expanded={b} text={newtxt} (not evaluable)"
                 return a != b, f"e={a} expanded={b} text={newtxt}"
             # expansion may legitimately introduce no new denominators; assume the original's
             base = base + list(fsym_term.nonzero)
             record("SymbolicMaths.expand", True, [z2 != zexp], chk_expand,
-                   extra={"out": newtxt, "_exact": list(fsym_term.exact)})
+                   extra={"out": newtxt, "_exact": list(fsym_term.exact), "_modpos": list(fsym_term.modpos)})
         else:
             # ---- dependency distance: read index e1(i), written index e2(i)
             try:
